@@ -85,7 +85,7 @@ PROPERTIES = {
         'assumptions': [],
     },
     'C15': {
-        'functions': ['EventBus.wait_until_idle', 'EventBus.step', 'EventBus._get_next_event', 'EventBus._run_loop', 'EventBus.dispatch', 'EventBus._start',
+        'functions': ['BaseEvent.__await__.wait', 'EventBus.wait_until_idle', 'EventBus.step', 'EventBus._get_next_event', 'EventBus._run_loop', 'EventBus.dispatch', 'EventBus._start',
                       'CleanShutdownQueue.put_nowait', 'CleanShutdownQueue.get_nowait', 'EventBus.events_pending', 'EventBus.events_started', 'EventBus.process_event'],
         'level': 'other',
         'trusted_base': [AX[k] for k in ('A1', 'A2', 'A3', 'A5', 'A6', 'A8', 'A10', 'X1', 'X2')] + [SERIAL_ONLY,
@@ -93,11 +93,11 @@ PROPERTIES = {
             'a dequeued event may be dropped without task_done() only when the bus is being stopped (_is_running already False) or the run-loop task is cancelled while polling'],
         'not_decided': ['"it does return once that is the case": liveness of the 0.1 s poll that raises the idle flag; only its safety core is decided '
                         '(flag raised only when nothing is queued/pending/started; task_done() on every exit path; join() can only block on unbalanced accounting)',
-                        'the inline-processing loop of BaseEvent.__await__ (second dequeue site) is not under contract yet'],
+                        'the inline-processing loop of BaseEvent.__await__ (second dequeue site) is under contract for C02/C10 (see there)'],
         'assumptions': [],
     },
     'C16': {
-        'functions': ['EventBus.stop', 'EventBus.wait_until_idle', 'EventBus._run_loop', 'EventBus._get_next_event', 'EventBus.step', 'CleanShutdownQueue.shutdown',
+        'functions': ['BaseEvent.__await__.wait', 'EventBus.stop', 'EventBus.wait_until_idle', 'EventBus._run_loop', 'EventBus._get_next_event', 'EventBus.step', 'CleanShutdownQueue.shutdown',
                       'EventBus._check_total_memory_usage', 'EventBus._execute_handlers', 'EventBus.execute_handler', 'EventBus._default_wal_handler', 'EventBus.expect'],
         'trusted_base': [AX[k] for k in ('A1', 'A2', 'A3', 'A5', 'A8', 'X1', 'X2')] + [SERIAL_ONLY,
             'bounded = every suspension point of stop()/wait_until_idle(timeout) is an asyncio wait with a non-None timeout (A3 bounds each by its timeout); the number of polling iterations is not bounded here (P4)',
@@ -105,7 +105,7 @@ PROPERTIES = {
             'the run loop makes no further step() after one was delivered',
             'the loop-close hook (close_with_cleanup in _start) is not verified'],
         'not_decided': ['"after stop() returns no handler of that bus starts": decided for the run loop (it ends on cancellation / sees _is_running False); the inline-processing loop of BaseEvent.__await__ '
-                        '(finding G3: it also drains queues of stopped buses) is not under contract yet',
+                        'may process a bus\'s queue only if that bus is running (call-site pre-condition, finding G3, repaired)',
                         'wall-clock bound of stop(): sum of the given timeout and 0.1 s, per A3'],
         'assumptions': [],
     },
@@ -147,13 +147,14 @@ PROPERTIES = {
         'assumptions': [],
     },
     'C10': {
-        'functions': ['EventBus.execute_handler', 'EventBus._execute_handlers', 'EventBus.process_event', 'EventBus.step', 'EventResult.update', 'BaseEvent.event_result_update',
+        'functions': ['BaseEvent.__await__.wait', 'EventBus.execute_handler', 'EventBus._execute_handlers', 'EventBus.process_event', 'EventBus.step', 'EventResult.update', 'BaseEvent.event_result_update',
                       'BaseEvent.event_cancel_pending_child_processing', 'EventBus._get_next_event'],
-        'level': 'other',
+        
         'trusted_base': [AX[k] for k in ('A1', 'A2', 'A3', 'A5', 'A8', 'A10', 'X1', 'X2')] + [SERIAL_ONLY, HANDLER_MODEL,
             'event_cancel_pending_child_processing: contract assumed (recursive walk), not verified'],
         'not_decided': ['that the cancellation lands at `timeout` seconds (timer accuracy is asyncio.wait_for, A3)',
-                        'the inline-processing path of BaseEvent.__await__ (finding F5: a timeout firing while the awaiting handler processes another event inline) is not under contract yet'],
+                        'second witness of finding F5 (a timeout firing while the awaiting handler processes another event inline leaves THAT event cancelled half-way: all its results terminal, '
+                        'completion signal never set) is not under contract; the accounting part (task_done on every exit) is decided and was repaired'],
         'assumptions': [],
     },
     'C11': {
